@@ -22,12 +22,14 @@ THEOREMS = {"CbProps.C07": ["CbProps.C07." + t for t in [
 HDR = """struct In { int a; int b; };
 struct Out { int x; In in; int[2] ys; };
 struct Pt { int x; In in; };
-interface IX { void setX(int v); void setIn(int v); void setYs(int i, int v); int getX(); int getInA(); int getYs(int i); }
+interface IX { void setX(int v); int bumpX(int d); void setXr(int v); void setIn(int v); void setYs(int i, int v); int getX(); int getInA(); int getYs(int i); }
 impl IX for Out {
     void setX(int v) { self.x = v; }
     void setIn(int v) { self.in.a = v; self.in.b = v + 1; }
     void setYs(int i, int v) { self.ys[i] = v; }
     int getX() { return self.x; }
+    int bumpX(int d) { self.x = self.x + d; return self.x; }
+    void setXr(int v) { if (v > -1000) { self.x = v; return; } self.x = 0; }
     int getInA() { return self.in.a; }
     int getYs(int i) { return self.ys[i]; }
 }
@@ -238,6 +240,31 @@ def op_table():
     def _(r, st):
         v = V(r)
         return "p1->setX(%d);" % v, ["w p:0:0 %d" % v], None
+
+    @reg("w_method_ret")
+    def _(r, st):
+        n, v = r.below(2), V(r)
+        return "n1 = o%d.bumpX(%d);" % (n + 1, v), ["a d:%d.0 %d" % (n, v), "c d:6 d:%d.0" % n], None
+
+    @reg("w_method_ptr_ret")
+    def _(r, st):
+        v = V(r)
+        return "n1 = p1->bumpX(%d);" % v, ["a p:0:0 %d" % v, "c d:6 p:0:0"], None
+
+    @reg("w_method_ptr_star_ret")
+    def _(r, st):
+        v = V(r)
+        return "n1 = (*p1).bumpX(%d);" % v, ["a p:0:0 %d" % v, "c d:6 p:0:0"], None
+
+    @reg("w_method_early_return")
+    def _(r, st):
+        n, v = r.below(2), V(r)
+        return "o%d.setXr(%d);" % (n + 1, v), ["w d:%d.0 %d" % (n, v)], None
+
+    @reg("w_method_ptr_early_return")
+    def _(r, st):
+        v = V(r)
+        return "p1->setXr(%d);" % v, ["w p:0:0 %d" % v], None
 
     @reg("w_ptrparam_addr")
     def _(r, st):
